@@ -13,7 +13,7 @@ import re
 from sa import ir, cfg, logic, facts, context
 from sa.ir import fmt, walk, short
 from sa.logic import canon, subst, Not
-from .common import NS, KINDS, PARSE_VEC, PARSE_ARGV, callgraph, one, elem_calls
+from .common import NS, KINDS, PARSE_VEC, PARSE_ARGV, callgraph, one, elem_calls, bodies_of
 
 ALLOWED = NS + "parsing_error"
 
@@ -313,7 +313,7 @@ def run(ctx):
                     % (text[:80], t["what"], chain_s, why), where)
 
     # ---- R04.2
-    tpos = [f for f in prog.find(NS + "parser::try_parse_as_option") if f.has_cfg]
+    tpos = bodies_of(prog, NS + "parser::try_parse_as_option")
     ctx.need("R04.2", "try_parse_as_option instantiations", len(tpos), 2)
     for f in tpos:
         IN, before = fe.analyse(f)
@@ -506,6 +506,12 @@ def justify_thrower(ctx, prog, lg, fn, n, nm, env, st):
             if k == 1 and logic.entails(st, Not(("a", "%s.empty()" % recv_c)), lg.axioms)[0] is True:
                 return True, "substr(1) under !%s.empty()" % recv_c
             return False, "position %d is not covered by a known prefix of %s" % (k, recv_c)
+        # a position that the facts bound by the receiver's size: `pos < recv.size()` (a scan loop's guard), `pos <= recv.size()`
+        if pos.get("k") == "ref":
+            pv = canon(subst(pos, env))
+            for want in ("(%s < %s.size())" % (pv, recv_c), "(%s < %s.length())" % (pv, recv_c), "(%s <= %s.size())" % (pv, recv_c), "!(%s.size() <= %s)" % (recv_c, pv), "!(%s.size() < %s)" % (recv_c, pv)):
+                if any(logic.show(f0) == want for f0 in st):
+                    return True, "substr(%s, ...) under %s" % (pv, want)
         # sep / sep + 1 with sep = recv.find(...) and facts |- sep != npos
         base = pos
         if pos.get("k") == "bin" and pos["op"] == "+" and ir.unwrap(pos["r"]).get("k") == "lit" and ir.unwrap(pos["r"]).get("v") == 1:
